@@ -35,10 +35,23 @@ fn corpus_item(rng: &mut Rng, i: usize) -> (String, String, Vec<u8>, bool) {
                 let x = rng.below(j + 1);
                 names.swap(j, x);
             }
-            for n in &names {
-                t.push_str(&format!("{} {}\nmov bx,2\n", rng.pick(&["jmp", "je", "loop", "jnz", "jcxz"]), n));
+            // directly, or through a macro (every use of the macro records the same position inside its expansion)
+            let via_macro = rng.chance(1, 2);
+            if via_macro {
+                t = format!("macro br(tgt) -> {} tgt <-\nmacro br2(a,b) -> br(a) br(b) <-\n{}", rng.pick(&["jmp", "je", "loop"]), t);
             }
-            (format!("undefined-labels-{}", k.min(4)), t, vec![], false)
+            for (j, n) in names.iter().enumerate() {
+                if via_macro {
+                    if j + 1 < names.len() && rng.chance(1, 3) {
+                        t.push_str(&format!("br2({},{})\n", n, names[j + 1]));
+                    } else {
+                        t.push_str(&format!("br({})\nmov bx,2\n", n));
+                    }
+                } else {
+                    t.push_str(&format!("{} {}\nmov bx,2\n", rng.pick(&["jmp", "je", "loop", "jnz", "jcxz"]), n));
+                }
+            }
+            (format!("undefined-labels-{}{}", k.min(4), if via_macro { "-via-macro" } else { "" }), t, vec![], false)
         }
         3 => {
             // undefined labels and no start, or undefined + duplicate definitions
